@@ -35,7 +35,7 @@ def inside(poly, x, y):
 def run(run):
     rng = run.rng
     run.do_ties()
-    quick = run.tier == "quick"
+    quick = run.quick
     rmax = 1 if quick else 3
     parents = [c for r in range(0, rmax + 1) for c in gen.all_cells(r)]
     for r in range(rmax + 1, 29):
